@@ -252,6 +252,27 @@ class Builder:
             self._type(kind, head, opts)
         elif kind in ('const', 'static', 'macro'):
             self._verbatim(kind, head, opts)
+        elif kind == 'generate':
+            if head.strip() == 'units_table':
+                from . import unitsgen
+                text, info = unitsgen.generate(self.repo)
+                e = Emitted()
+                e.kind = 'generated'
+                e.ident = 'units_table'
+                e.impl = None
+                e.mode = 'generated'
+                e.src_file = 'src/haystack/units/units_generated.rs'
+                e.src_lines = (1, 1)
+                e.sha256 = info['sha256']
+                e.rules = {'unitsgen': 1}
+                start = len(self.out_lines) + 1
+                self.emit(text)
+                e.gen_lines = (start, len(self.out_lines))
+                e.directive = head
+                e.info = info
+                self.emitted.append(e)
+            else:
+                raise Undecided('unknown generator ' + head)
         elif kind == 'note':
             pass
         else:
